@@ -61,7 +61,7 @@ func (u Search) Run(rc RunCtx) UnitResult {
 		samples = append(samples, s)
 	}
 	return UnitResult{Name: r.Scenario, Params: r.Params, Kind: "explicit-state search", States: r.States, Transitions: r.Transitions,
-		Executed: r.TotalExecuted, Maximal: r.MaximalTraces, Evaluations: r.TotalExecuted, Nontrivial: r.States,
+		Executed: r.TotalExecuted, Maximal: r.MaximalTraces, Evaluations: r.Attempts, Nontrivial: r.States,
 		Depth: r.DepthCompleted, DepthTarget: r.DepthTarget, Exhaustive: r.Exhaustive, Replayed: r.ReplayChecked,
 		Found: r.Found, Samples: samples, Outcomes: r.Outcomes, Wall: r.Wall}
 }
